@@ -57,7 +57,15 @@ def f_recip(x, a=1.0, b=1.0):
     return a * x * x + b / x
 
 
-FUNS = dict(cubic=f_cubic, rational=f_rational, sqrt=f_sqrt, mobius=f_mobius, xsqrt=f_xsqrt, recip=f_recip)
+def f_pure_cube(x):
+    return x * x * x
+
+
+def f_quartic(x, a=1.0, b=0.0):
+    return a * (x * x) * (x * x) + b
+
+
+FUNS = dict(quartic=f_quartic, cubic=f_cubic, rational=f_rational, sqrt=f_sqrt, mobius=f_mobius, xsqrt=f_xsqrt, recip=f_recip)
 
 
 def setup(ctx, mon):
@@ -69,6 +77,7 @@ def setup(ctx, mon):
             rows = np.asarray(ret) // shape[1]
             _seen['rows'] = rows
             errs = np.asarray(frame.f_locals['errors'])
+            _seen['errors'] = np.array(errs, copy=True)
             has_all_nan = bool(np.any(np.all(np.isnan(errs), axis=0)))
             # "gave up": a column without any valid estimate made every column take the first row
             _seen['gave_up'] = bool(has_all_nan and shape[1] > 1 and np.all(rows == 0)
@@ -115,6 +124,20 @@ def run_case(case, ctx):
     lo = 0.3 if case['fun'] in ('sqrt', 'recip', 'mobius') else -3.0
     x = rng.uniform(lo, 3.0, size=size)
     x = np.where(np.abs(x) < 0.2, 0.7, x).reshape(shape)
+    if case['seed'] % 5 == 0:
+        # polynomials at dyadic points: the differences are computed without rounding, so several rows of the table carry
+        # *exactly* equal error estimates (ties) - which row wins must not depend on the other elements of the array
+        f = [f_pure_cube, f_quartic][case['seed'] // 5 % 2]
+        args, kwds = (), {}
+        if case['seed'] // 10 % 2 and method != 'multicomplex' and method != 'complex':
+            # the configurations whose tables are short and exact enough for ties to be frequent
+            method, n, order = [('forward', 1, 2), ('backward', 1, 2), ('central', 2, 2), ('central', 1, 4), ('forward', 1, 4),
+                                ('backward', 1, 1)][int(rng.integers(0, 6))]
+        if len(shape) == 1:
+            shape = (int(rng.integers(20, 41)),)         # (many elements: ties are rare)
+            size = shape[0]
+        x = (rng.integers(4, 49, size=size) / 16.0 * rng.choice([-1.0, 1.0], size=size)).reshape(shape)
+        ctx.count('polynomials_at_dyadic_points')
     lay = ['C', 'F', 'swapped', 'C'][case['seed'] % 4] if len(shape) >= 2 else 'C'
 
     def laid_out(a):
@@ -144,6 +167,31 @@ def run_case(case, ctx):
         return
     rows_full = _seen.get('rows')
     gave_up_full = bool(_seen.get('gave_up'))
+    errors_full = _seen.get('errors')        # the table of error estimates the row choice was made from (rows x elements)
+
+    def record_differs(q, info_q):
+        # the rest of the record of element q (error estimate, final step, chosen index row) against its scalar call
+        if gave_up_full:
+            return False
+        ctx.count('scalar_records_compared')
+        for name in ('error_estimate', 'final_step'):
+            a_ = np.float64(np.asarray(getattr(info, name)).flat[q])
+            b_ = np.float64(np.asarray(getattr(info_q, name)).ravel()[0])
+            if _bits(a_) != _bits(b_):
+                ctx.reject('scalar_call_differs_from_array_element', observed=float(b_), expected=float(a_), method=method,
+                           detail=dict(position=q, what=name), row_choice_gave_up_for_all_columns=gave_up_full)
+                return True
+        return False
+
+    def table_column_differs(q):
+        # the whole column of (penalised) error estimates of element q, as seen by the row choice in the array call and in the
+        # scalar call just made: elementwise processing means the two are the same numbers
+        es_ = _seen.get('errors')
+        if errors_full is None or es_ is None or errors_full.ndim != 2 or es_.shape != (errors_full.shape[0], 1) \
+                or errors_full.shape[1] != size:
+            return False
+        ctx.count('error_table_columns_compared')
+        return _bits(np.asarray(errors_full[:, q], dtype=float)) != _bits(np.asarray(es_[:, 0], dtype=float))
     out = np.asarray(out)
     # (1) shape
     ctx.count('shape_asserted')
@@ -171,7 +219,7 @@ def run_case(case, ctx):
         if case['hostile']:
             # neighbours at which some or all steps leave the domain / hit the pole
             hostile_vals = dict(sqrt=[1e-3, 1e-6, -0.5], recip=[1e-3, -1e-3, 1e-9], mobius=[-2.0, -1.999, -2.3],
-                                rational=[1e3, -1e3, 0.0], cubic=[1e6, -1e6, 0.0], xsqrt=[1e5, 0.0, -1e5])[case['fun']]
+                                rational=[1e3, -1e3, 0.0], cubic=[1e6, -1e6, 0.0], quartic=[1e5, -1e5, 0.0], xsqrt=[1e5, 0.0, -1e5])[case['fun']]
             # ... and neighbours of a very different magnitude (huge ones swallow every step: x + h == x)
             hostile_vals = hostile_vals + ([1e13, 1e15, 1e17, 1e-300] if case['fun'] in ('sqrt', 'recip', 'mobius')
                                            else [1e13, -1e15, 1e17, -1e-300])
@@ -223,9 +271,15 @@ def run_case(case, ctx):
     e1 = float(np.asarray(info.error_estimate).flat[pidx])
     if method in ('central', 'forward', 'backward'):
         ctx.count('scalar_equivalence_asserted:bitwise')
+        if shape and not gave_up_full and table_column_differs(pidx):
+            ctx.reject('scalar_call_differs_from_array_element', observed=_seen['errors'][:, 0], expected=errors_full[:, pidx], method=method,
+                       detail=dict(position=pidx, x_p=xp, what='table of error estimates'), row_choice_gave_up_for_all_columns=gave_up_full)
+            return
         if _bits(np.float64(o1)) != _bits(np.float64(outs)):
             ctx.reject('scalar_call_differs_from_array_element', observed=float(outs), expected=float(o1), method=method,
                        detail=dict(position=pidx, x_p=xp), row_choice_gave_up_for_all_columns=gave_up_full)
+            return
+        if shape and record_differs(pidx, infos):
             return
     else:
         ctx.count('scalar_equivalence_asserted:within_estimate')
@@ -249,9 +303,15 @@ def run_case(case, ctx):
                 ctx.reject('raised_on_scalar', observed=repr(exc)[:200], method=method)
                 return
             ctx.count('scalar_equivalence_asserted:bitwise')
+            if not gave_up_full and table_column_differs(q):
+                ctx.reject('scalar_call_differs_from_array_element', observed=_seen['errors'][:, 0], expected=errors_full[:, q], method=method,
+                           detail=dict(position=q, x_p=xq, what='table of error estimates'), row_choice_gave_up_for_all_columns=gave_up_full)
+                return
             if _bits(np.float64(np.asarray(out).flat[q])) != _bits(np.float64(np.asarray(oq))):
                 ctx.reject('scalar_call_differs_from_array_element', observed=float(np.asarray(oq)), expected=float(np.asarray(out).flat[q]),
                            method=method, detail=dict(position=q, x_p=xq), row_choice_gave_up_for_all_columns=gave_up_full)
+                return
+            if record_differs(q, _iq):
                 return
     if len(ctx.samples) < 3:
         ctx.sample(dict(case=case, x=x.ravel()[:5], out=np.asarray(out).ravel()[:5], position=pidx, scalar_result=float(outs)))
